@@ -191,6 +191,9 @@ func cmdCheck(args []string) int {
 		MaxConcreteAlloc: 1 << 22, MaxPaths: ts.MaxPaths, RaceDetect: !ts.NoRace,
 		QueryTimeout: time.Duration(ts.QueryTimeoutS) * time.Second, Seed: seed, KeepSamples: 4000, SleepSets: !ts.NoSleepSets, DelayBound: -1,
 		Deadline: t0.Add(time.Duration(ts.TimeoutS) * time.Second)}
+	if spec.Filter != nil {
+		cfg.ClaimPrefixes = spec.Filter.LabelPrefixes
+	}
 	e, s, err := loadEngine(*verif, *repo, []string{spec.Pkg}, cfg)
 	if err != nil {
 		fmt.Println("INCONCLUSIVE property=" + spec.ID + " cannot load repository with harness overlay (harness no longer type-checks?):")
@@ -253,25 +256,38 @@ func cmdCheck(args []string) int {
 	// the same paths and the same sat/unsat verdict counts
 	crossNotes := []string{}
 	for _, sv := range ts.CrossSolvers {
-		cfg2 := cfg
-		cfg2.Solver = sv
-		cfg2.KeepSamples = 1
-		e.Cfg = cfg2
 		for _, r := range results {
+			// scheduling-only harnesses put no question to the solver: nothing to cross-check
+			if _, ok := ts.HarnessOpts[r.Harness]; ok || r.Solver.Queries == 0 {
+				continue
+			}
 			entry, err := e.Entry(pkgPath(spec.Pkg), r.Harness)
 			if err != nil {
 				continue
 			}
+			if time.Now().After(cfg.Deadline) {
+				inconclusive = append(inconclusive, fmt.Sprintf("%s: time budget exhausted before the cross-solver re-exploration under %s", r.Harness, sv))
+				continue
+			}
+			base := e.Cfg
+			cfg2 := base
+			cfg2.Solver = sv
+			cfg2.KeepSamples = 1
+			e.Cfg = cfg2
 			r2 := e.Explore(entry)
-			same := r2.Paths == r.Paths && r2.Status["done"] == r.Status["done"] && r2.Status["violation"] == r.Status["violation"] &&
-				r2.Solver.Unsat == r.Solver.Unsat && len(r2.Unknowns) == 0
+			e.Cfg = base
 			note := fmt.Sprintf("%s under %s: paths %d/%d, unsat %d/%d, unknowns %d", r.Harness, sv, r2.Paths, r.Paths, r2.Solver.Unsat, r.Solver.Unsat, len(r2.Unknowns))
 			crossNotes = append(crossNotes, note)
+			if r2.DeadlineHit {
+				inconclusive = append(inconclusive, "time budget exhausted during the cross-solver re-exploration: "+note)
+				continue
+			}
+			same := r2.Paths == r.Paths && r2.Status["done"] == r.Status["done"] && r2.Status["violation"] == r.Status["violation"] &&
+				r2.Solver.Unsat == r.Solver.Unsat && len(r2.Unknowns) == 0
 			if !same {
 				inconclusive = append(inconclusive, "cross-solver disagreement: "+note)
 			}
 		}
-		e.Cfg = cfg
 	}
 	if len(crossNotes) > 0 {
 		fmt.Println("cross-solver: " + strings.Join(crossNotes, "; "))
